@@ -100,6 +100,18 @@ class Normalizer:
                 return "%s@Ok.0%s" % (src[1], m.group(3))
         return name
 
+    def _payload_of(self, v):
+        """Ok/Some payload of a Result/Option valued symbol (for map_err / ok_or chains)"""
+        if self.o is not None:
+            v = self.it.resolve(self.o, v)
+        if v[0] == "var" and v[3] is not None and len(v[3]) == 2 and v[3][0] == "symp":
+            return ("sym", "%s@Ok.0" % v[3][1])
+        if v[0] == "var" and v[3]:
+            return v[3][0]
+        if v[0] == "sym":
+            return ("sym", v[1] + "@Ok.0")
+        return v
+
     def value_atom(self, v):
         """string atom for a non-arithmetic value"""
         v0 = v
@@ -155,6 +167,14 @@ class Normalizer:
         if k == "sym":
             name = self._unwrap_name(v[1])
             v = ("sym", name)
+            import re as _re
+            mm = _re.match(r"(ret:\d+)@(Ok|Some)\.0$", name)
+            if mm and mm.group(1) in self.ret_info:
+                callee, args = self.ret_info[mm.group(1)]
+                if callee and len(args) == 1 and any(callee.endswith(x) or x in callee for x in TRANSPARENT_CALLS):
+                    return self.form(args[0])
+                if callee and (callee.endswith("Result::map_err") or callee.endswith("Option::ok_or_else") or callee.endswith("Option::ok_or")):
+                    return self.form(("sym", self._unwrap_name("unwrap:0")) if False else self._payload_of(args[0]))
             info = self.ret_info.get(name)
             if info:
                 callee, args = info
